@@ -15,6 +15,10 @@ import itertools
 from .loader import AnalysisError, body_nodoc, dotted, norm, strip_cast
 
 
+class ZeroableTruth(Exception):
+    """a duration (difference of two clock readings, 0.0 when they coincide - a coarse clock tick) used as a condition"""
+
+
 class Unknown(Exception):
     pass
 
@@ -186,6 +190,9 @@ class TimerMachine:
             # a time stamp / duration: non-zero unless it is literally the constant 0
             if not v:
                 return False
+            clock = [c for a, c in v.items() if str(a).startswith("now")]
+            if clock and sum(clock) == 0 and all(str(a).startswith("now") for a in v):
+                raise ZeroableTruth(v.show())
             return True
         raise Unknown("truth value")
 
@@ -321,6 +328,10 @@ def explore(ci, clock_kind, mod, depth: int = 3):
                     # started"; a never-started timer is not expired whatever was stopped
                     if got != want and not (isinstance(got, bool) and isinstance(want, bool) and got == want):
                         mism.append(("; ".join(text) + "; expired@now", show(got), show(want)))
+                except ZeroableTruth as z:
+                    checked += 1
+                    if not any(m_[1].startswith("a duration") and str(z) in m_[1] for m_ in mism):
+                        mism.append(("; ".join(text) + "; expired@now", f"a duration ({z}) is tested for truth: it is 0.0 - falsy - when the two clock readings coincide (one tick of a coarse clock), and the timer then behaves as if the operation that recorded it had not happened", "a decision that does not depend on two readings being different"))
                 except Unknown as u:
                     key = str(u)
                     if key not in seen_unknown:
